@@ -223,6 +223,10 @@ class Ctx(HeapSnap):
     def assume(self, f):
         self.eng.assume(f)
 
+    def inst(self, k):
+        """instantiate every recorded quantified fact at index term k (proof hint; adds only true facts)"""
+        self.eng.instantiate_all(k)
+
     def local(self, name):
         return self.view(self.eng.frames[0].env[name])
 
@@ -410,7 +414,7 @@ class Contract:
         spec = self.loops().get(key.replace("py7zr.", "", 1))
         if spec is None:
             spec = self.loops().get(key)
-        if spec is not None and spec.target is not None:
+        if spec is not None and spec.target is not None and st is not None:
             txt = ast.unparse(st.target) + " in " + ast.unparse(st.iter) if isinstance(st, ast.For) else ast.unparse(st.test)
             if txt.replace(" ", "") != spec.target.replace(" ", ""):
                 raise EngineError("anchor lost: loop %s is now `%s`, contract expects `%s`" % (key, txt, spec.target))
